@@ -21,7 +21,7 @@ Definition ex_fuel : nat := 64.
 Definition ex_interp : frame f32 -> frame f32 -> frame f32 -> frame f32 -> f32 -> frame f32 :=
   @C04.Interp.interpolate_frame f32 C04.Model.SOps_f32.
 Definition ex_clamp (x : f32) : f32 := clamp32 x (Z32 (-1)) (Z32 1).
-Definition kira32 : ops := kira_ops (F := f32) consts_f32 (T := f64) ex_interp f64_to_f32 (Z32 1) ex_fuel ex_clamp.
+Notation kira32 := (kira_ops (F := f32) consts_f32 (T := f64) ex_interp f64_to_f32 (Z32 1) ex_fuel ex_clamp).
 
 (** ** two static sounds ([StaticSound::new] of C04, three-frame pre-fill included) *)
 Definition fr (l r : Z) : frame f32 := (dy32 l (-3), dy32 r (-3)).
@@ -64,16 +64,32 @@ Definition ex_render (b : nat) (cbs : list nat) : list Z :=
   map bits_of_f32 (snd (run_callbacks kira32 2 (conc_renderer kira32 b (ex_dt, b) ex_scene) cbs)).
 
 (** the hypotheses under which the adapters are the code hold of this scene: both sounds exist,
-    play, have a fixed rate; every effect state is well-formed *)
+    play, have a fixed rate (as every sound made by [StaticSound::new]); every effect state is
+    well-formed *)
+Lemma ex_new_steady d s : ex_new d = Some s -> rate_steady (frame f32) s.
+Proof.
+  unfold ex_new. intros H.
+  destruct (C04.StaticSound.sound_new (frame f32) (Z32 0, Z32 0) ex_fuel d) as [s0| |] eqn:E; try discriminate H.
+  injection H as <-. eapply sound_new_steady. exact E.
+Qed.
 Example ex_scene_ok :
-  (exists s1 s2, ex_snd1 = Some s1 /\ ex_snd2 = Some s2 /\
-     C04.StaticSound.s_stopped s1 = false /\ C04.StaticSound.s_stopped s2 = false /\
-     rate_steady (frame f32) s1 /\ rate_steady (frame f32) s2) /\
+  (match ex_snd1, ex_snd2 with
+   | Some s1, Some s2 => negb (C04.StaticSound.s_stopped s1) && negb (C04.StaticSound.s_stopped s2)
+   | _, _ => false
+   end = true) /\
+  (forall s, ex_snd1 = Some s \/ ex_snd2 = Some s -> rate_steady (frame f32) s) /\
   scene_wf consts_f32 ex_interp f64_to_f32 (Z32 1) ex_fuel ex_clamp ex_scene.
 Proof.
-  split.
-  - vm_compute. do 2 eexists. repeat split.
-  - vm_compute. repeat constructor.
+  split; [vm_compute; reflexivity|]. split.
+  - intros s [H|H]; exact (ex_new_steady _ _ H).
+  - unfold scene_wf, ex_scene. cbn [sx_main sx_subs sx_sends sm_fx ss_fx snd track_wf].
+    repeat match goal with
+           | |- _ /\ _ => split
+           | |- Forall _ _ => constructor
+           | |- True => exact I
+           | |- ?f [] => exact I
+           | |- _ => progress cbn [track_wf]
+           end; apply fx_init_wf; vm_compute; reflexivity.
 Qed.
 
 (** two configurations, evaluated: the same 16 device samples, not silence, no NaN *)
@@ -87,7 +103,7 @@ Proof. vm_compute. repeat split; try discriminate. repeat constructor; discrimin
 (** the same equation from the theorem *)
 Example ex_by_theorem : ex_render 2 [3; 1; 4]%nat = ex_render 3 [1; 1; 2; 4]%nat.
 Proof.
-  unfold ex_render. f_equal.
+  unfold ex_render. apply (f_equal (map bits_of_f32)).
   refine (proj1 (render_partition_independent_kira' consts_f32 ex_interp f64_to_f32 (Z32 1) ex_fuel ex_clamp
                    2 2 3 [3; 1; 4]%nat [1; 1; 2; 4]%nat ex_dt ex_scene _ _ _ _)); try lia.
   - vm_compute. repeat constructor. intros [].
